@@ -127,8 +127,9 @@ def run_snapshot(ctx, snapshot, lines, impl_ans, rng):
             log = f"{spa.pack_class.name.lower()}-log-{spa.log_version}"
             modfor = lambda tag: log if tag in {a for a in spa.log_class.accessors} else cfg
 
-            async def issue(label, coro_fn, predict_line, expect_check):
+            async def issue(label, coro_fn, predict_line, expect_check, acc=None):
                 blk = spa.struct.status_block
+                spa_before = bytes(sim.structure.status_block)
                 n0 = len(sim.commands)
                 bid = "b"
                 lines.append(f"blk {bid} {blk.hex()}")
@@ -156,6 +157,25 @@ def run_snapshot(ctx, snapshot, lines, impl_ans, rng):
                             ctx.violation("pack-type", {"snapshot": name, "command": label}, spa.pack_type, c["pack_type"])
                     elif not (1 <= c["seq"] <= 191):
                         ctx.violation("seq-range:setwc", {"snapshot": name, "command": label}, "SETWC sequence in 1..191", c["seq"])
+                # frame: a direct write changes the commanded item's bits at the spa and nothing else ("exactly the intended device write")
+                if acc is not None and new and all(c["kind"] == "set" for c in new):
+                    spa_after = bytes(sim.structure.status_block)
+                    size = acc.length
+                    allowed = ((1 << (8 * size)) - 1) if acc.bitpos is None else ((acc.bitmask << acc.bitpos) & ((1 << (8 * size)) - 1))
+                    foreign = []
+                    for i in range(min(len(spa_before), len(spa_after))):
+                        d = spa_before[i] ^ spa_after[i]
+                        if not d:
+                            continue
+                        if not (acc.pos <= i < acc.pos + size):
+                            foreign.append((i, spa_before[i], spa_after[i]))
+                        elif d & ~((allowed >> (8 * (acc.pos + size - 1 - i))) & 0xFF):      # big-endian field
+                            foreign.append((i, spa_before[i], spa_after[i]))
+                    if foreign:
+                        others = sorted(t for t, a in spa.accessors.items() if a is not acc and any(a.pos <= i < a.pos + a.length for i, _, _ in foreign))[:6]
+                        ctx.violation(f"foreign-bits-written:{label.split(':')[0]}", {"snapshot": name, "command": label},
+                                      f"only {acc.tag} (byte {acc.pos}, length {acc.length}, bitpos {acc.bitpos}, mask {acc.bitmask}) changes at the spa",
+                                      {"changed (byte, before, after)": foreign[:4], "items sharing those bytes": others})
                 return new, (";".join(obs) if obs else "none"), err
 
             # ---- on/off devices: blowers, lights, eco mode
@@ -165,7 +185,7 @@ def run_snapshot(ctx, snapshot, lines, impl_ans, rng):
                 for want in (True, False, False, True, True):
                     was = dev.is_on
                     new, obs, err = await issue(f"{dev.key}:{'on' if want else 'off'}",
-                                                dev.async_turn_on if want else dev.async_turn_off, None, None)
+                                                dev.async_turn_on if want else dev.async_turn_off, None, None, acc=dev._accessor)
                     lines.append(f"switch {modfor(tag)} {tag} {dev._keypad_button} {1 if want else 0} b")
                     impl_ans.append(f"{obs} on={1 if was else 0}")
                     ctx.count("evaluations")
@@ -185,7 +205,7 @@ def run_snapshot(ctx, snapshot, lines, impl_ans, rng):
                 for mode in list(p.modes) + ["NOT-A-MODE"]:
                     if mode == "":
                         continue
-                    new, obs, err = await issue(f"{p.key}:mode:{mode}", lambda m=mode, pp=p: pp.async_set_mode(m), None, None)
+                    new, obs, err = await issue(f"{p.key}:mode:{mode}", lambda m=mode, pp=p: pp.async_set_mode(m), None, None, acc=spa.accessors[ud])
                     lines.append(f"pump {modfor(ud)} {ud} {hx(mode.encode())} b")
                     impl_ans.append(obs)
                     ctx.count("evaluations")
@@ -203,7 +223,7 @@ def run_snapshot(ctx, snapshot, lines, impl_ans, rng):
             wh = fac.water_heater
             ua = wh._temperature_unit_accessor
             for u in ("F", "°F", "f", "C", "c", "°C", "x"):
-                new, obs, err = await issue(f"unit:{u}", lambda uu=u: wh.async_set_temperature_unit(uu), None, None)
+                new, obs, err = await issue(f"unit:{u}", lambda uu=u: wh.async_set_temperature_unit(uu), None, None, acc=ua)
                 lines.append(f"unit {modfor(ua.tag)} {ua.tag} {hx(u.encode())} b")
                 impl_ans.append(obs)
                 ctx.count("evaluations")
